@@ -59,6 +59,9 @@ func Compare(m refsem.Outcome, r rt.Outcome, names []string) (kind, detail strin
 		}
 		return "unexpected-error", fmt.Sprintf("model value %s; impl error %q", m.Val, r.ErrText)
 	}
+	if m.ValueUnspec {
+		return "", ""
+	}
 	if m.Type == "function" || m.Type == "builtin" {
 		if r.Type != m.Type {
 			return "value", fmt.Sprintf("model type %s; impl %s %s", m.Type, r.Type, r.Val)
@@ -109,13 +112,23 @@ func Features(prog []*lang.N) string {
 			if sw {
 				f["ctrl-in-switch-in-loop"] = true
 			}
-		case lang.SFunc:
-			if depth > 0 {
-				f["named-func-in-block"] = true
+		case lang.EFunc:
+			for _, p := range n.Params {
+				if p.Def != nil && p.Def.K == lang.ENil {
+					f["nil-default"] = true
+				}
 			}
 			walkBlock(n.Body, false, false, depth+1)
 			return
-		case lang.EFunc:
+		case lang.SFunc:
+			for _, p := range n.Params {
+				if p.Def != nil && p.Def.K == lang.ENil {
+					f["nil-default"] = true
+				}
+			}
+			if depth > 0 {
+				f["named-func-in-block"] = true
+			}
 			walkBlock(n.Body, false, false, depth+1)
 			return
 		case lang.SFor:
